@@ -13,9 +13,12 @@ from ..oblig import PROVED, REFUTED, UNKNOWN, UNSUPPORTED, Obligation
 _CANON = re.compile(r"#r[\w./]*")
 
 
+_CANON2 = re.compile(r"(loop|call|map)r[\w./]*")
+
+
 def canon(path: str) -> str:
     """object names without allocation counters (stable across harmless edits)"""
-    return _CANON.sub("", path)
+    return _CANON2.sub(r"\1", _CANON.sub("", path))
 
 
 def is_abstract_target(ci: ClassInfo) -> bool:
